@@ -288,6 +288,31 @@ func runC12(r *R) {
 		}
 	}
 
+	// ---- R6
+	r.Rule("C12-R6", "balanceBlock runs concurrently for different blocks (ComputeChangeSets workers): it writes no field of the shared KeepService/KeepMount/Balancer/BlockState objects — per-block ranks live in locals", 1)
+	if fn := w.Fn("(*" + kb + ".Balancer).balanceBlock"); fn != nil {
+		shared := map[string]bool{kb + ".KeepService": true, kb + ".KeepMount": true, kb + ".Balancer": true, kb + ".BlockState": true, kb + ".Replica": true, "sdk/go/arvados.KeepService": true, "sdk/go/arvados.KeepMount": true}
+		nStores, bad := 0, 0
+		for _, f := range append([]*ssa.Function{fn}, Closures(fn)...) {
+			allInstrs(f, func(in ssa.Instruction) {
+				st, ok := in.(*ssa.Store)
+				if !ok {
+					return
+				}
+				nStores++
+				t, fld, base, okf := FieldName(st.Addr)
+				if !okf || !shared[t] || isFreshObject(base) {
+					return
+				}
+				bad++
+				r.Bad("C12-R6", f, "store "+t+"."+fld, in.Pos(), "per-block state is written into an object shared by the concurrent balanceBlock workers: one block's ranking is overwritten by another's before its sort finishes")
+			})
+		}
+		if bad == 0 {
+			r.Ok("C12-R6", fn, "no shared-object stores", fn.Pos(), itoa(nStores)+" stores examined, all to locals")
+		}
+	}
+
 	// ---- R5
 	r.Rule("C12-R5", "balanceBlock: srvRendezvous[srv] = index in the sorted uuid list; the slot comparator consults it", 2)
 	if fn := w.Fn("(*" + kb + ".Balancer).balanceBlock"); fn != nil {
